@@ -2,7 +2,7 @@
 colour-mirror comparison (K10)."""
 import re
 
-from .core import cname, ap, show, strip_not, eff_cond
+from .core import cname, ap, show, strip_not, eff_cond, implied_atoms
 
 WRITE_KINDS = ('asg', 'incdec')
 
@@ -71,10 +71,21 @@ def guards_of(func, blocks, b, skip_loops=True):
         other = s1 if in0 else s0
         if other == b or _reaches_avoiding(func, other, b, d):
             continue        # b is (after) the join of this branch: reachable from the other side too
-        ce, pol = strip_not(c)
-        side = (in0 == pol)
-        out.append(('%s%s' % ('' if side else '!', show(ce, 300))))
+        if term.get('c') == 'BinaryOperator' and _feeds_vshape(func, d):
+            continue        # operand block of a value-shaped condition: the statement's block carries the guard
+        for atom, tv in implied_atoms(c, in0):
+            ce, pol = strip_not(atom)
+            side = (tv == pol)
+            out.append(('%s%s' % ('' if side else '!', show(ce, 300))))
     return out
+
+
+def _feeds_vshape(func, d):
+    for s2 in func.blocks[d]['succ']:
+        t2 = func.blocks[s2].get('term') if s2 in func.blocks else None
+        if t2 and t2.get('vshape'):
+            return True
+    return False
 
 
 def _reaches(func, a, b):
@@ -109,15 +120,32 @@ def _reaches_avoiding(func, a, b, avoid):
     return False
 
 
+LOOP_TERMS = ('ForStmt', 'WhileStmt', 'CXXForRangeStmt', 'DoStmt')
+
+
 def loop_header_of(func, b):
-    """Innermost loop header (block with a loop terminator) whose body contains b, else None."""
+    """The block carrying the loop statement (its terminator is the for/while/do, its condition the
+    whole loop condition) of the innermost natural loop whose body contains b; None if b is in no loop.
+    For short-circuit conditions the natural-loop header is the first operand's block; the block
+    returned here is the one whose terminator is the loop statement itself."""
+    nl = func.natural_loops()
     best = None
-    for d in func.dominators().get(b, set()):
-        t = func.blocks[d].get('term')
-        if t and t.get('c') in ('ForStmt', 'WhileStmt', 'CXXForRangeStmt') and d != b and _reaches(func, b, d):
-            if best is None or best in func.dominators().get(d, set()):
-                best = d
-    return best
+    for h, body in nl.items():
+        if b in body and (b != h or any(s2 in body for s2 in func.blocks[b]['succ'])):
+            if best is None or len(body) < len(nl[best]):
+                best = h
+    if best is None:
+        return None
+    body = nl[best]
+    doms = func.dominators()
+    cands = [x for x in body if (func.blocks[x].get('term') or {}).get('c') in LOOP_TERMS]
+    if not cands:
+        return best
+    # the loop's own statement block: the candidate with the fewest dominators (outermost within this body)
+    cands.sort(key=lambda x: len(doms.get(x, ())))
+    if b in cands and b != cands[0] and False:
+        return b
+    return cands[0]
 
 
 def arm_statements(func, start, stop, with_guards=True):
@@ -161,11 +189,18 @@ def branch_arms(func, cond_pred):
         if not term or len(blk['succ']) != 2 or term.get('c') in ('SwitchStmt', 'CXXTryStmt', 'CXXForRangeStmt'):
             continue
         c = eff_cond(term)
-        e, pol = strip_not(c)
-        if e is None or not cond_pred(e):
+        hit = None
+        for truth in (True, False):
+            for atom, tv in implied_atoms(c, truth):
+                e, pol = strip_not(atom)
+                if e is not None and cond_pred(e) and hit is None:
+                    # taking the `truth` successor implies the matched expression has value (tv == pol)
+                    hit = (truth, tv == pol)
+        if hit is None:
             continue
-        t, f = blk['succ']
-        if not pol:
-            t, f = f, t
+        s_true, s_false = blk['succ']
+        side_succ = s_true if hit[0] else s_false
+        other = s_false if hit[0] else s_true
+        t, f = (side_succ, other) if hit[1] else (other, side_succ)
         out.append((bid, t, f, ipdom(func, bid)))
     return out
